@@ -36,7 +36,7 @@ RULE = ('one evaluation = one seeded run: (hist) a 20-150 call Cache history wit
         'lifecycle event / the fixture was read; distinct = SHA-256 of the case')
 ASSUMPTIONS = ['a real fork() carrying an open SQLite handle is not simulated; the pid-change seam checks the library\'s reaction to it',
                'the fixture was written on POSIX by the pinned release (fixtures/make_fixture.py)']
-PROBES = ('lifecycle', 'fork', 'thread_stretch', 'pickle', 'fixture_items', 'newproc', 'move')
+PROBES = ('lifecycle', 'fork', 'thread_stretch', 'pickle', 'fixture_items', 'newproc', 'move', 'own_temporary_directory')
 TECHNIQUE = 'deterministic simulation (simulated processes, pid seam, thread tasks, virtual clock) + model-based checking across lifecycle events; golden-directory regression of the released on-disk format'
 LEVEL_TEXT = ('seeded exploration of histories with lifecycle events under the simulator (process identity and threads are simulated, so '
               'fork and cross-process sharing are replayable), each call compared with the reference model through whichever handle is '
@@ -60,7 +60,7 @@ def gen_case(seed, tier):
         return {'seed': seed, 'cfg': {'kind': 'objects', 'which': rng.choice(('fanout', 'deque', 'index', 'django')),
                                       'events': [rng.choice(('reopen', 'pickle', 'newproc', 'fork')) for _ in range(rng.randint(2, 6))],
                                       'shards': rng.choice((1, 2, 3)), 'size_limit': rng.choice((None, 4000000)),
-                                      'maxlen': rng.choice((None, 3, 5))}}
+                                      'maxlen': rng.choice((None, 3, 5)), 'temp': rng.random() < 0.3}}
     settings = seqcache.gen_settings(rng, 'c18')
     if rng.random() < 0.4:
         settings['sqlite_cache_size'] = rng.choice((1000, 4096))
@@ -271,7 +271,14 @@ def run_objects(case):
         contents = None
         if which == 'fanout':
             kw = {} if cfg['size_limit'] is None else {'size_limit': cfg['size_limit']}
-            obj = dc.FanoutCache(path, shards=cfg['shards'], cull_limit=3, statistics=1, **kw)
+            if cfg.get('temp'):
+                # no directory given: the object makes its own, which from then on belongs to everything that refers to it by
+                # path - reopened handles, unpickled copies, other processes - not to the object that happened to make it
+                obj = dc.FanoutCache(shards=cfg['shards'], cull_limit=3, statistics=1, **kw)
+                path = obj.directory
+                probes['own_temporary_directory'] = 1
+            else:
+                obj = dc.FanoutCache(path, shards=cfg['shards'], cull_limit=3, statistics=1, **kw)
             want_limit = (cfg['size_limit'] or 2 ** 30) / cfg['shards']
             model = {}
 
@@ -323,7 +330,12 @@ def run_objects(case):
                     violations.append({'rule': 'C18/setting-not-persisted', 'sig': 'django',
                                        'detail': '%s: size_limit %r (want %r), cull_limit %r' % (when, o._cache.size_limit, want_limit, o._cache.cull_limit)})
         elif which == 'deque':
-            obj = dc.Deque(directory=path, maxlen=cfg['maxlen'])
+            if cfg.get('temp'):
+                obj = dc.Deque(maxlen=cfg['maxlen'])
+                path = obj.directory
+                probes['own_temporary_directory'] = 1
+            else:
+                obj = dc.Deque(directory=path, maxlen=cfg['maxlen'])
             import collections
             model = collections.deque(maxlen=cfg['maxlen'])
 
@@ -350,7 +362,12 @@ def run_objects(case):
             def extra(o, when):
                 pass
         else:
-            obj = dc.Index(path)
+            if cfg.get('temp'):
+                obj = dc.Index()
+                path = obj.directory
+                probes['own_temporary_directory'] = 1
+            else:
+                obj = dc.Index(path)
             import collections
             model = collections.OrderedDict()
 
@@ -402,6 +419,9 @@ def run_objects(case):
                 pid += 1000
                 sim.harness_proc.pid = pid
                 probes['fork'] = probes.get('fork', 0) + 1
+            if cfg.get('temp'):
+                import gc
+                gc.collect()      # the handles used so far are gone for good
             extra(obj, 'after ' + ev)
             got, want = observe(obj), expected()
             if got != want and not violations:
